@@ -321,6 +321,7 @@ pub fn run(ctx: &Ctx) -> Report {
     for r in results {
         report.merge(r);
     }
+    super::firstuse::run_children(ctx, "notation", 16, &mut report);
     report.set("well_formed_tokens_all_covered", Json::Int(tokens.len() as i128));
     report.exhaustive = Some(true);
     report.rule = "one execution = parse::<HandRange>() (and for single tokens parse::<HandRangeToken>() + into_iter()) of a well-formed text compared combo by combo and bit by bit with the notation's standard meaning R2; every one of the 3,640 well-formed tokens with fixed, corner and random weight literals in [0,1] (exhaustive over tokens), seeded lists of 1..16 tokens with forced overlaps and spaces sprinkled anywhere, the empty and blank strings; distinct = distinct texts".into();
